@@ -344,6 +344,115 @@ theorem Built.reduced_optimal {fin : K → Bool} {q : QEF n K} {l : List (Sample
   rw [hzero] at hconv
   linarith
 
+/-! ### the unpacking loop of `solveConstrained` puts the reduced solution where `liftIdx` says -/
+
+theorem map_val_finRange (n : Nat) : (List.finRange n).map (fun i : Fin n => i.val) = List.range n := by
+  apply List.ext_getElem <;> simp
+
+/-- the `c`-th element of `filter q (range n)` has exactly `c` elements of the filter below it -/
+theorem filter_range_rank (q : Nat → Bool) :
+    ∀ (n c : Nat) (h : c < ((List.range n).filter q).length),
+      ((List.range ((List.range n).filter q)[c]).filter q).length = c
+  | 0, c, h => by simp at h
+  | n + 1, c, h => by
+    have hsplit : (List.range (n + 1)).filter q = (List.range n).filter q ++ [n].filter q := by
+      rw [List.range_succ, List.filter_append]
+    by_cases hc : c < ((List.range n).filter q).length
+    · have : ((List.range (n + 1)).filter q)[c] = ((List.range n).filter q)[c] := by
+        simp only [hsplit]
+        exact List.getElem_append_left hc
+      rw [this]
+      exact filter_range_rank q n c hc
+    · have hlen : ((List.range (n + 1)).filter q).length =
+          ((List.range n).filter q).length + ([n].filter q).length := by
+        rw [hsplit, List.length_append]
+      by_cases hq : q n = true
+      · have h1 : [n].filter q = [n] := by simp [hq]
+        have hceq : c = ((List.range n).filter q).length := by
+          rw [hlen, h1] at h; simp at h; omega
+        have : ((List.range (n + 1)).filter q)[c] = n := by
+          simp only [hsplit, h1]
+          rw [List.getElem_append_right (by omega)]
+          simp [hceq]
+        rw [this]; exact hceq.symm
+      · have h1 : [n].filter q = [] := by simp [hq]
+        rw [hlen, h1] at h; simp at h; omega
+
+omit [LinearOrder K] [IsStrictOrderedRing K] in
+theorem freeAxes_getElem (nb : Nat) (c : Nat) (h : c < (freeAxes n nb).length) :
+    nbFixed nb ((freeAxes n nb)[c]).val = false ∧ freeRank nb ((freeAxes n nb)[c]).val = c := by
+  have hmem : (freeAxes n nb)[c] ∈ freeAxes n nb := List.getElem_mem h
+  have hnf : nbFixed nb ((freeAxes n nb)[c]).val = false := by
+    have := (List.mem_filter.mp hmem).2
+    simpa using this
+  refine ⟨hnf, ?_⟩
+  have hmap : (freeAxes n nb).map (fun i : Fin n => i.val) =
+      (List.range n).filter (fun a => !nbFixed nb a) := by
+    unfold freeAxes
+    rw [← map_val_finRange n, List.filter_map]
+    rfl
+  have hlen : c < ((List.range n).filter (fun a => !nbFixed nb a)).length := by
+    rw [← hmap]; simpa using h
+  have hval : ((freeAxes n nb)[c]).val = ((List.range n).filter (fun a => !nbFixed nb a))[c] := by
+    have : ((freeAxes n nb).map (fun i : Fin n => i.val))[c]'(by simpa using h) = ((freeAxes n nb)[c]).val := by
+      simp
+    rw [← this]
+    simp only [hmap]
+  unfold freeRank
+  rw [hval]
+  exact filter_range_rank _ n c hlen
+
+omit [Field K] [LinearOrder K] [IsStrictOrderedRing K] in
+/-- the vector `(position, value)` assembled by `solveConstrained` restricted to the kept
+    rows/columns is the reduced solution -/
+theorem assemble_lift (region : Region n K) (nb : Nat) (x : Fin ((freeAxes n nb).length + 1) → K)
+    (c : Fin ((freeAxes n nb).length + 1)) :
+    snoc (assemblePos region nb x) (x (Fin.last _)) (liftIdx (freeAxes n nb) c) = x c := by
+  by_cases hc : c.val < (freeAxes n nb).length
+  · obtain ⟨h1, h2⟩ := freeAxes_getElem (n := n) nb c.val hc
+    have hl : liftIdx (freeAxes n nb) c = ((freeAxes n nb)[c.val]).castSucc := by
+      simp [liftIdx, hc]
+    rw [hl, snoc_castSucc]
+    unfold assemblePos
+    simp only [h1, Bool.false_eq_true, if_false, h2]
+    have : c.val < (freeAxes n nb).length + 1 := c.isLt
+    simp [this]
+  · have hce : c = Fin.last _ := by
+      apply Fin.ext
+      have := c.isLt
+      simp only [Fin.val_last]
+      omega
+    have hl : liftIdx (freeAxes n nb) c = Fin.last n := by
+      simp [liftIdx, hc]
+    rw [hl, snoc_last, hce]
+
+/-- **If the inner solver is exact on the reduced system, the candidate of `solveConstrained`
+    minimises the error over its face.** -/
+theorem Built.candidate_optimal {fin : K → Bool} {q : QEF n K} {l : List (Sample n K)}
+    (h : Built fin q l) (solver : Solver K) (region : Region n K) (nb : Nat) (tpos : Fin n → K)
+    (tval : K)
+    (hexact : ∀ r, (∑ c, q.reducedAtA nb r c *
+        (solver (freeAxes n nb).length (q.reducedAtA nb) (q.reducedAtB region nb)
+          (reducedTarget nb tpos tval)).value c) = q.reducedAtB region nb r)
+    (x' : Fin n → K) (w' : K) (hx' : ∀ i : Fin n, nbFixed nb i.val = true → x' i = region.face nb i) :
+    (q.solveConstrained solver region nb tpos tval).error ≤ q.error x' w' := by
+  set sol := solver (freeAxes n nb).length (q.reducedAtA nb) (q.reducedAtB region nb)
+    (reducedTarget nb tpos tval) with hsol
+  have herr : (q.solveConstrained solver region nb tpos tval).error =
+      q.errorV (snoc (assemblePos region nb sol.value) (sol.value (Fin.last _))) := rfl
+  rw [herr]
+  unfold QEF.error
+  apply h.reduced_optimal region nb
+  · intro i hf
+    rw [snoc_castSucc]
+    simp [assemblePos, hf]
+  · intro i hf
+    rw [snoc_castSucc]
+    exact hx' i hf
+  · intro r
+    rw [← hexact r]
+    exact sum_congr rfl (fun c _ => by rw [assemble_lift])
+
 /-- `Region::shrink(p)` with `0 ≤ p ≤ 1` of a well-formed box stays inside it. -/
 theorem shrink_bounds (lo hi p : K) (hb : lo ≤ hi) (hp0 : 0 ≤ p) (hp1 : p ≤ 1) :
     lo ≤ lo + ((hi - lo) * (1 - p)) / 2 ∧
